@@ -248,6 +248,42 @@ func checkC19(c *core.Ctx) {
 	guardHelpers(c, r2)
 	r3 := c.Rule("R19.3", "D", "decode loops advance: a packet-chosen step has a proven lower bound >= 1")
 	loopProgress(c, r3)
+	r6 := c.Rule("R19.6", "D", "progress: a decoder that hands data[n:] to the next decoder has n >= 1 (same decision as R1.6: without it eager decoding recurses until the stack overflows, which no recover can catch)")
+	payloadProgress(c, r6)
+	r7 := c.Rule("R19.7", "D", "fixed-size tables indexed by a decoded enum value have an entry for every value decode code can produce")
+	tableIndexRange(c, r7)
+	r5 := c.Rule("R19.5", "D", "length arithmetic on packet values is not done in uint8/uint16 where it can wrap before the result is used as a slice bound, index or length test")
+	narrowLengths(c, r5)
 	r4 := c.Rule("R19.4", "D", "cursor helpers: constant reads through a *[]byte cursor are covered by a length guard on the cursor's current contents, in the helper or at every call site")
 	cursorSites(c, r4)
+}
+
+func narrowLengths(c *core.Ctx, r *core.Rule) {
+	p := c.P
+	roots := p.Roots()
+	n := 0
+	for _, fn := range core.SortedFns(roots.DecReach) {
+		if fn.Pkg == nil || len(fn.Blocks) == 0 || strings.HasSuffix(p.Pos(fn.Pos()), "_test.go") {
+			continue
+		}
+		var ri *guard.RootInfo
+		if d := roots.DecByFn[fn]; d != nil {
+			ri = &guard.RootInfo{Data: d.Data, MinLen: d.MinLen}
+		}
+		k := 0
+		for _, s := range guard.NarrowLengthOps(fn, ri) {
+			n++
+			k++
+			key := fmt.Sprintf("%s/narrow-%s#%d", core.FnKey(fn), s.At.Op.String(), k)
+			if s.Definite {
+				r.Violate(key, p.InstrPos(s.At), fmt.Sprintf("the slice's high bound is computed in %s and wraps: %s, so the slice expression panics (slice bounds out of range) whatever the length of the packet", s.At.Type().String(), s.Witness), nil)
+			} else {
+				r.Undecided(key, p.InstrPos(s.At), fmt.Sprintf("%s is evaluated in %s, where it can wrap for large field values, and the result is used as a %s at %s; whether other checks make the wrapped value harmless is not decided", s.At.Op.String(), s.At.Type().String(), s.What, p.InstrPos(s.Use)))
+			}
+		}
+	}
+	c.Counts["narrow_length_ops"] = n
+	if n == 0 {
+		r.OK("decode/narrow-length-ops", "", "no wrapping 8/16-bit length arithmetic found in decode-reachable code")
+	}
 }
